@@ -13,15 +13,16 @@ resolutions, redefinition errors, resolutions, errors) in the same order, for ev
 every global environment. -/
 theorem ribs_eq_spec_block (g : Globals) (b : List Stmt) : resolveRibsBlock g b = resolveSpecBlock g b := by
   unfold resolveRibsBlock resolveSpecBlock Globals.initialStacks
-  have h := visitBlock_eq g b (some g.funcsLang) [] [] (fun _ h => by simp at h) (fun _ h => by simp at h)
+  have h := visitBlock_eq (g.withProgram b) b (some g.funcsLang) [] [] (fun _ h => by simp at h) (fun _ h => by simp at h)
   simpa [envOf, fenvOf, Env.empty] using h
 
 /-- a script file: its top-level statements are items (the AST cannot hold a local declaration there) -/
 def TopLevel (items : List Stmt) : Prop := ∀ s ∈ items, s.isDecl = false
 
-theorem ribs_eq_spec (g : Globals) (items : List Stmt) (h : TopLevel items) :
-    resolveRibs g items = resolveSpec g items := by
-  unfold resolveRibs resolveSpec
+/-- the file-level statement for any table of function signatures -/
+theorem ribs_eq_spec_with (g : Globals) (items : List Stmt) (h : TopLevel items) :
+    resolveRibsWith g items = resolveSpecWith g items := by
+  unfold resolveRibsWith resolveSpecWith
   simp only [Rib.new]
   rw [addItems_eq]
   have h' := visitStmts_free g items h (some g.funcsLang)
@@ -41,26 +42,39 @@ theorem ribs_eq_spec (g : Globals) (items : List Stmt) (h : TopLevel items) :
   funext ns n
   cases ns <;> rfl
 
+/-- The rib-stack resolver of a whole script file (`visit_file`: the table of function signatures
+is the one of the program, `Globals.withProgram`) computes exactly the declarative specification,
+including which arguments of a call are looked at at all, the enum every argument is expected to
+be, `times(x = n)` clobber variables (uses) and function declarations without body (their
+parameter names declare nothing). -/
+theorem ribs_eq_spec (g : Globals) (items : List Stmt) (h : TopLevel items) :
+    resolveRibs g items = resolveSpec g items :=
+  ribs_eq_spec_with (g.withProgram items) items h
+
 /-- Every identifier occurrence of the program gets exactly one primary event (self resolution,
-resolution or error), in the order `blockIds` lists them, and no assertion of the resolver fires
-(`evKey` of a fired assertion is `none`). -/
+resolution, error, or `skipped` for an identifier the resolver never looks at), in the order
+`blockIds` lists them, and no assertion of the resolver fires (`evKey` of a fired assertion is
+`none`). -/
 theorem each_ident_visited_once (g : Globals) (items : List Stmt) (h : TopLevel items) :
     (resolveRibs g items).flatMap evKey = (blockIds items).map some := by
   rw [ribs_eq_spec g items h]
-  unfold resolveSpec blockIds
+  unfold resolveSpec resolveSpecWith blockIds
   simp only [List.flatMap_append, List.map_append]
-  rw [declEvents_key, specStmts_key g items _ _ _ (envClean_withItems _ envClean_empty _)]
+  rw [declEvents_key, specStmts_key _ items _ _ _ (envClean_withItems _ envClean_empty _)]
 
 /-- With pairwise distinct occurrence ids (what `assign_res_ids` provides) the `Resolutions` table
 is filled without the "ident resolved multiple times" assertion (or any other) firing, and it
 then maps every resolved identifier to the definition of its one resolution event, every
-declaring identifier to its own definition, and leaves the identifiers with an error unresolved. -/
+declaring identifier to its own definition, and leaves the identifiers with an error and the
+identifiers that are never looked at (arguments beyond the callee's parameter count, parameter
+names of a declaration without body) unresolved. -/
 theorem each_ident_resolved_once (g : Globals) (items : List Stmt) (h : TopLevel items)
     (hn : (blockIds items).Nodup) :
     ∃ tbl, applyEvents [] (resolveRibs g items) = .ok tbl ∧
       (∀ id d, Event.res id d ∈ resolveRibs g items → tbl.lookup id = some d) ∧
       (∀ id, Event.selfRes id ∈ resolveRibs g items → tbl.lookup id = some (.decl id)) ∧
-      (∀ id e, Event.err id e ∈ resolveRibs g items → tbl.lookup id = none) := by
+      (∀ id e, Event.err id e ∈ resolveRibs g items → tbl.lookup id = none) ∧
+      (∀ id, Event.skipped id ∈ resolveRibs g items → tbl.lookup id = none) := by
   obtain ⟨tbl, ht⟩ := applyEvents_ok _ _ [] (each_ident_visited_once g items h) hn (fun _ _ => rfl)
   exact ⟨tbl, ht, applyEvents_table _ _ [] tbl (each_ident_visited_once g items h) hn (fun _ _ => rfl) ht⟩
 
@@ -78,9 +92,16 @@ theorem spec_rename (g : Globals) (ρ : Name → Name) (items : List Stmt)
     resolveSpec g (renameFile ρ items) = resolveSpec g items := by
   have hr : RenOK ρ (Declared items) (Occurs items) := ⟨hinj, hfresh⟩
   have hd : ∀ d ∈ itemDecls items, Declared items d.2.2 := fun d hd => itemDecls_names items d hd
-  unfold resolveSpec renameFile
+  -- renaming changes no function signature
+  have hg : g.withProgram (renameFile ρ items) = g.withProgram items := by
+    unfold Globals.withProgram renameFile
+    rw [stmtsFuncSigs_ren]
+  unfold resolveSpec
+  rw [hg]
+  unfold resolveSpecWith renameFile
   rw [itemDecls_ren, declEvents_ren hr itemNoun _ _ _ seenRel_false hd]
-  rw [renStmts_ok hr g items (some g.funcsLang) _ _ _ _ (envRel_withItems hr (envRel_empty _ _) _ hd)
+  rw [renStmts_ok hr (g.withProgram items) items (some (g.withProgram items).funcsLang) _ _ _ _
+    (envRel_withItems hr (envRel_empty _ _) _ hd)
     hereRel_false (envClean_withItems _ envClean_empty _) (fun _ h => h) (fun _ h => h)]
 
 /-- Renaming invariance.  Let `ρ` be injective on the names declared in the program and map them to
@@ -103,9 +124,15 @@ theorem rename_invariant_block (g : Globals) (ρ : Name → Name) (b : List Stmt
     (hfresh : ∀ x, Declared b x → ¬ Occurs b (ρ x)) :
     resolveRibsBlock g (renameBlock ρ b) = resolveRibsBlock g b := by
   have hr : RenOK ρ (Declared b) (Occurs b) := ⟨hinj, hfresh⟩
+  have hg : g.withProgram (renameBlock ρ b) = g.withProgram b := by
+    unfold Globals.withProgram renameBlock
+    rw [stmtsFuncSigs_ren]
   rw [ribs_eq_spec_block, ribs_eq_spec_block]
-  unfold resolveSpecBlock renameBlock
-  exact specBlock_ren hr g b (renStmts_ok hr g b) _ (envRel_empty _ _) envClean_empty (fun _ h => h) (fun _ h => h)
+  unfold resolveSpecBlock
+  rw [hg]
+  unfold renameBlock
+  exact specBlock_ren hr (g.withProgram b) b (renStmts_ok hr (g.withProgram b) b) _ (envRel_empty _ _) envClean_empty
+    (fun _ h => h) (fun _ h => h)
 
 /-! ## Non-vacuity: a program exercising every rule satisfies all hypotheses
 
@@ -127,14 +154,14 @@ def exampleGlobals : Globals :=
     builtins := ["PI"], funcsLang := "ecl", scriptsLang := "anm" }
 
 def exampleProg : List Stmt :=
-  [ .const [⟨0, "a", [⟨1, .funcs, "a", none, none⟩]⟩],
-    .func 2 "f" .const [(3, "p"), (4, "p")] [.expr [⟨5, .vars, "a", none, none⟩]],
-    .script [ .decl [⟨6, "b", [⟨7, .vars, "b", none, none⟩]⟩],
-              .block [.decl [⟨8, "a", [⟨9, .vars, "a", none, none⟩]⟩], .expr [⟨10, .vars, "a", none, none⟩]],
-              .expr [⟨11, .vars, "d", none, none⟩, ⟨12, .vars, "c", none, none⟩, ⟨13, .funcs, "f", none, none⟩,
-                     ⟨14, .vars, "b", none, none⟩],
-              .expr [⟨15, .vars, "c", none, some "E2"⟩, ⟨16, .vars, "a", none, some "E1"⟩,
-                     ⟨17, .vars, "c", none, some "E9"⟩]] ]
+  [ .const [⟨0, "a", [.call ⟨1, .funcs, "a", none, none⟩ []]⟩],
+    .func 2 "f" .const [(3, "p"), (4, "p")] [.expr [.use ⟨5, .vars, "a", none, none⟩]],
+    .script [ .decl [⟨6, "b", [.use ⟨7, .vars, "b", none, none⟩]⟩],
+              .block [.decl [⟨8, "a", [.use ⟨9, .vars, "a", none, none⟩]⟩], .expr [.use ⟨10, .vars, "a", none, none⟩]],
+              .expr [.use ⟨11, .vars, "d", none, none⟩, .use ⟨12, .vars, "c", none, none⟩,
+                     .call ⟨13, .funcs, "f", none, none⟩ [.use ⟨14, .vars, "b", none, none⟩]],
+              .expr [.use ⟨15, .vars, "c", none, some "E2"⟩, .use ⟨16, .vars, "a", none, some "E1"⟩,
+                     .use ⟨17, .vars, "c", none, some "E9"⟩]] ]
 
 def exampleRho : Name → Name := fun x =>
   if x = "a" then "alpha" else if x = "b" then "beta" else if x = "f" then "phi" else if x = "p" then "pi" else x
@@ -157,7 +184,7 @@ example : ∃ tbl, applyEvents [] (resolveRibs exampleGlobals exampleProg) = .ok
 
 /-- the occurrence ids matter: with a repeated id the assertion of `Resolutions` does fire -/
 example : applyEvents [] (resolveRibs exampleGlobals
-    [.script [.expr [⟨0, .vars, "PI", none, none⟩, ⟨0, .vars, "PI", none, none⟩]]]) =
+    [.script [.expr [.use ⟨0, .vars, "PI", none, none⟩, .use ⟨0, .vars, "PI", none, none⟩]]]) =
     .panic "(bug!) ident resolved multiple times" := by decide
 
 theorem example_inj : ∀ x y, Declared exampleProg x → Declared exampleProg y →
@@ -179,5 +206,263 @@ example : stmtsNames (renameFile exampleRho exampleProg) =
     ["alpha", "a", "phi", "pi", "pi", "alpha", "beta", "b", "alpha", "alpha", "alpha", "d", "c", "phi", "beta",
      "c", "a", "c"] := by
   decide
+
+/-! ## The global ribs (`Defs::initial_ribs`) and which global definition of a spelling wins
+
+`Globals.initialRibsVec` is the vector `initial_ribs` returns (instruction alias ribs, register
+alias ribs, builtin consts, enum consts), `ribStacksFromIter` what `RibStacks::from_iter` makes of
+it.  The theorems say, per namespace and per context (language of the use, or none in a const
+context), which of several global definitions of one spelling a use means: a const of an enum
+before a builtin const before a register alias of the language of the use; aliases of other
+languages never; every declaration of the program before all of them. -/
+
+theorem foldl_push_funcs (r : Lang → Rib) : ∀ (ls : List Lang) (st : Stacks),
+    (ls.map fun l => (Ns.funcs, r l)).foldl pushRib st = { st with funcs := ls.reverse.map r ++ st.funcs } := by
+  intro ls
+  induction ls with
+  | nil => intro st; rfl
+  | cons l ls ih => intro st; simp only [List.map_cons, List.foldl_cons]; rw [ih]; simp [pushRib]
+
+theorem foldl_push_vars (r : Lang → Rib) : ∀ (ls : List Lang) (st : Stacks),
+    (ls.map fun l => (Ns.vars, r l)).foldl pushRib st = { st with vars := ls.reverse.map r ++ st.vars } := by
+  intro ls
+  induction ls with
+  | nil => intro st; rfl
+  | cons l ls ih => intro st; simp only [List.map_cons, List.foldl_cons]; rw [ih]; simp [pushRib]
+
+/-- the rib stacks name resolution starts from are `initial_ribs` pushed in order on the dummy roots -/
+theorem initial_ribs_stacks (g : Globals) : ribStacksFromIter g.initialRibsVec = g.initialStacks := by
+  unfold ribStacksFromIter Globals.initialRibsVec Globals.initialStacks Globals.initialVars Globals.initialFuncs
+  rw [List.foldl_append, List.foldl_append, foldl_push_funcs, foldl_push_vars]
+  rfl
+
+/-- Variables: which global definition a spelling means (`Globals.globalVar`: enum const, else
+builtin const, else the newest register alias of that name in the language of the use; in a const
+context, or in a language without mapfile rib, no alias at all). -/
+theorem global_var_precedence (g : Globals) (lang : Option Lang) (n : Name) :
+    resolve lang n none (ribStacksFromIter g.initialRibsVec).vars = g.globalVar lang n := by
+  rw [initial_ribs_stacks]; exact resolve_initialVars g lang n
+
+/-- Functions: the newest instruction alias of that name in the language of the use, nothing else. -/
+theorem global_func_precedence (g : Globals) (lang : Option Lang) (n : Name) :
+    resolve lang n none (ribStacksFromIter g.initialRibsVec).funcs = g.globalFunc lang n := by
+  rw [initial_ribs_stacks]; exact resolve_initialFuncs g lang n
+
+/-- a const of an enum (a sprite, script or sub name, or a mapfile enum const) shadows a builtin
+const and a register alias of the same spelling, in every language and in const contexts -/
+theorem enum_const_shadows_builtin_and_alias (g : Globals) (lang : Option Lang) (n : Name)
+    (h : g.enumConsts.any (fun p => p.2 == n) = true) :
+    resolve lang n none (ribStacksFromIter g.initialRibsVec).vars = .ok .enumDummy := by
+  rw [global_var_precedence]; unfold Globals.globalVar; rw [if_pos h]
+
+/-- a builtin const shadows a register alias of the same spelling -/
+theorem builtin_shadows_alias (g : Globals) (lang : Option Lang) (n : Name)
+    (h1 : g.enumConsts.any (fun p => p.2 == n) = false) (h2 : g.builtins.contains n = true) :
+    resolve lang n none (ribStacksFromIter g.initialRibsVec).vars = .ok (.builtin n) := by
+  rw [global_var_precedence]; unfold Globals.globalVar
+  rw [if_neg (by rw [h1]; exact Bool.false_ne_true), if_pos h2]
+
+/-- a register alias is visible only in its own language: not in a const context ... -/
+theorem alias_invisible_in_const_context (g : Globals) (n : Name)
+    (h1 : g.enumConsts.any (fun p => p.2 == n) = false) (h2 : g.builtins.contains n = false) :
+    resolve none n none (ribStacksFromIter g.initialRibsVec).vars = .error .unknown := by
+  rw [global_var_precedence]; unfold Globals.globalVar
+  rw [if_neg (by rw [h1]; exact Bool.false_ne_true), if_neg (by rw [h2]; exact Bool.false_ne_true)]
+
+/-- ... and in language `l` only the aliases of `l` count, whatever other languages call `n` -/
+theorem alias_only_of_own_language (g : Globals) (l : Lang) (n : Name)
+    (h1 : g.enumConsts.any (fun p => p.2 == n) = false) (h2 : g.builtins.contains n = false)
+    (h3 : lastAlias g.regAliases l n = none) :
+    resolve (some l) n none (ribStacksFromIter g.initialRibsVec).vars = .error .unknown := by
+  rw [global_var_precedence]; unfold Globals.globalVar
+  rw [if_neg (by rw [h1]; exact Bool.false_ne_true), if_neg (by rw [h2]; exact Bool.false_ne_true)]
+  simp only [h3]
+  split <;> rfl
+
+/-- every declaration of the program that is in scope shadows every global definition: with any
+stack of block / parameter / item / barrier ribs on top of the global ribs, a name that one of
+them declares never reaches the global ribs -/
+theorem declaration_shadows_globals (g : Globals) (user : List Rib) (hu : UserRibs user)
+    (lang : Option Lang) (n : Name) (e : VEntry) (he : envOf user n = some e) :
+    resolve lang n none (user ++ (ribStacksFromIter g.initialRibsVec).vars) =
+      (match e with
+       | .loc _ d => .ok d
+       | .item d => .ok d
+       | .blocked k ik => .error (.crossBarrier k ik)) := by
+  rw [initial_ribs_stacks]
+  show resolve lang n none (user ++ g.initialVars) = _
+  rw [resolve_user lang n g.initialVars (initialVars_noLocals g) user hu none]
+  simp only [hideOpt, he, finishEntry]
+  cases e <;> rfl
+
+/-! ## The ribs of a function body: `Locals` on `Items` on `Params` on the barrier -/
+
+/-- The statements of the body of `T f(params) { body }` are resolved on these stacks: the
+`Locals` rib of the body block, the rib of the items of the body block (pre-declared), the
+`Params` rib, the function barrier, then whatever was there.  A const of the body's own top-level
+block therefore shadows a parameter of the same name, in the whole body. -/
+theorem func_body_stacks (st : Stacks) (params : List (Nat × Name)) (body : List Stmt) :
+    (enterBlock (addParams { st with vars := Rib.new .params :: Rib.new (.barrier .function) :: st.vars } params).1
+        body).1 =
+      ⟨⟨.locals, []⟩ :: ⟨.items, pushItems .vars (itemDecls body) []⟩ :: ⟨.params, pushParams params []⟩ ::
+          ⟨.barrier .function, []⟩ :: st.vars,
+        ⟨.items, pushItems .funcs (itemDecls body) []⟩ :: st.funcs⟩ := by
+  have hp := (addParams_eq [⟨.barrier .function, []⟩] st.vars st.funcs (fun _ => none) params []).1
+  simp only [List.cons_append, List.nil_append] at hp
+  simp only [Rib.new]
+  rw [hp]
+  simp only [enterBlock, Rib.new]
+  rw [addItems_eq]
+
+/-- the environment in which the specification resolves the statements of a function body -/
+def bodyEnv (env : Env) (params : List (Nat × Name)) (body : List Stmt) : Env :=
+  (paramEnv (env.hide .function) params).withItems (itemDecls body)
+
+theorem body_item_shadows_param (env : Env) (params : List (Nat × Name)) (body : List Stmt) (n : Name) (cid : Nat)
+    (h : lastDecl (itemDecls body) .vars n = some cid) :
+    (bodyEnv env params body).vars n = some (.item (.decl cid)) := by
+  simp only [bodyEnv, Env.withItems, h]
+
+theorem param_visible_unless_body_item (env : Env) (params : List (Nat × Name)) (body : List Stmt) (n : Name)
+    (h : lastDecl (itemDecls body) .vars n = none) :
+    (bodyEnv env params body).vars n = (paramEnv (env.hide .function) params).vars n := by
+  simp only [bodyEnv, Env.withItems, h]
+
+/-! ## Things the resolver never looks at -/
+
+/-- once the parameters of the callee are used up, the remaining arguments are not visited -/
+theorem excess_args_skipped (g : Globals) (lang : Option Lang) (look : Use → Event) (c : Option Name) :
+    ∀ (es : List Expr), walkArgs g lang look c (some []) es = skipExprs es := by
+  intro es
+  induction es with
+  | nil => simp [walkArgs, skipExprs]
+  | cons e es ih => simp only [walkArgs, skipExprs, ih]
+
+/-- without a signature (the callee name did not resolve, or its instruction has none) every
+argument is visited, under the enum that was expected before -/
+theorem args_without_signature (g : Globals) (lang : Option Lang) (look : Use → Event) (c : Option Name) :
+    ∀ (es : List Expr), walkArgs g lang look c none es = walkExprs g lang look c es := by
+  intro es
+  induction es with
+  | nil => simp [walkArgs, walkExprs]
+  | cons e es ih => simp only [walkArgs, walkExprs, ih]
+
+/-- a declaration without body: the name is an item of its block, the parameter names are skipped -/
+theorem funcDecl_declares_only_its_name (g : Globals) (lang : Option Lang) (st : Stacks) (id : Nat) (name : Name)
+    (qual : FuncQual) (params : List (Nat × Name)) (rest : List Stmt) :
+    visitStmt g lang st (.funcDecl id name qual params) = (st, params.map fun p => Event.skipped p.1) ∧
+      itemDecls (.funcDecl id name qual params :: rest) = (.funcs, id, name) :: itemDecls rest :=
+  ⟨by simp only [visitStmt], by simp only [itemDecls]⟩
+
+/-- `times(x = n) { b }`: the clobbered variable is an ordinary use in the scope around the loop -/
+theorem times_clobber_is_a_use (g : Globals) (lang : Option Lang) (st : Stacks) (x : Use) (es : List Expr)
+    (b : List Stmt) :
+    visitStmts g lang st (Stmt.timesClobber x es b) =
+      visitUse g lang st { x with color := none } :: visitStmts g lang st (Stmt.times es b) := by
+  simp only [Stmt.timesClobber, Stmt.times, visitStmts, visitStmt, walkExprs, walkExpr, List.cons_append,
+    List.nil_append, List.append_assoc]
+
+/-! ### Non-vacuity of the extensions
+
+```
+int g(int a);                 // 0 1      declaration without body: `a` declares nothing
+void f(int p, int q) {        // 2 3 4
+  p;                          // 5        the const below (whole block, also before its declaration), not the parameter
+  const int p = 1;            // 6
+  times(q = p) { }            // 7 8      clobber `q`: the parameter; count `p`: the const
+  g(p, nowhere);              // 9 10 11  `g` has one parameter: the second argument is never looked at
+  h(nowhere);                 // 12 13    unknown function: the argument is still visited
+  wait(RAND, INF);            // 14 15 16 ECL alias with one parameter; RAND: the sprite, not the ECL register alias
+  INF;                        // 17       the builtin, not the ECL register alias
+}
+script { RAND; ins_900(x, x); }  // 18 19 20  in ANM: still the sprite; one parameter of enum E1
+```
+-/
+
+def exampleGlobals2 : Globals :=
+  { langs := ["ecl", "anm"],
+    regAliases := [("anm", "RAND", 10000), ("ecl", "RAND", 100), ("ecl", "INF", 101), ("anm", "I0", 10001)],
+    insAliases := [("ecl", "wait", 7)], enums := ["E1", "AnmSprite"],
+    enumConsts := [("AnmSprite", "RAND"), ("E1", "x")],
+    builtins := ["INF", "PI"], funcsLang := "ecl", scriptsLang := "anm",
+    insSigs := [("ecl", 7, [none]), ("anm", 900, [some "E1"])] }
+
+def exV (id : Nat) (n : Name) : Expr := .use ⟨id, .vars, n, none, none⟩
+
+def exampleProg2 : List Stmt :=
+  [ .funcDecl 0 "g" .plain [(1, "a")],
+    .func 2 "f" .plain [(3, "p"), (4, "q")]
+      ([ .expr [exV 5 "p"], .const [⟨6, "p", []⟩] ] ++
+       Stmt.timesClobber ⟨7, .vars, "q", none, none⟩ [exV 8 "p"] [] ++
+       [ .expr [.call ⟨9, .funcs, "g", none, none⟩ [exV 10 "p", exV 11 "nowhere"]],
+         .expr [.call ⟨12, .funcs, "h", none, none⟩ [exV 13 "nowhere"]],
+         .expr [.call ⟨14, .funcs, "wait", none, none⟩ [exV 15 "RAND", exV 16 "INF"]],
+         .expr [exV 17 "INF"] ]),
+    .script [ .expr [exV 18 "RAND", .raw 900 [exV 19 "x", exV 20 "x"]] ] ]
+
+theorem example2_topLevel : TopLevel exampleProg2 := by unfold TopLevel; decide
+
+example : resolveRibs exampleGlobals2 exampleProg2 =
+    [.selfRes 0, .selfRes 2, .skipped 1, .selfRes 3, .selfRes 4, .selfRes 6, .res 5 (.decl 6),
+     .res 7 (.decl 4), .res 8 (.decl 6), .res 9 (.decl 0), .res 10 (.decl 6), .skipped 11,
+     .err 12 .unknown, .err 13 .unknown, .res 14 (.insAlias "ecl" 7), .res 15 (.enumConst "AnmSprite" "RAND"),
+     .skipped 16, .res 17 (.builtin "INF"), .res 18 (.enumConst "AnmSprite" "RAND"),
+     .res 19 (.enumConst "E1" "x"), .skipped 20] := by decide
+
+example : resolveRibs exampleGlobals2 exampleProg2 = resolveSpec exampleGlobals2 exampleProg2 :=
+  ribs_eq_spec _ _ example2_topLevel
+
+example : ∃ tbl, applyEvents [] (resolveRibs exampleGlobals2 exampleProg2) = .ok tbl ∧
+    tbl.lookup 11 = none ∧ tbl.lookup 1 = none :=
+  let ⟨tbl, h, _, _, _, hs⟩ := each_ident_resolved_once _ _ example2_topLevel (by decide)
+  ⟨tbl, h, hs 11 (by decide), hs 1 (by decide)⟩
+
+/-- renaming the colliding declarations (`p` twice, `q`, `f`, `g`) to fresh names changes nothing -/
+def exampleRho2 : Name → Name := fun x =>
+  if x = "p" then "p_" else if x = "q" then "q_" else if x = "f" then "f_" else if x = "g" then "g_" else x
+
+example : resolveRibs exampleGlobals2 (renameFile exampleRho2 exampleProg2) =
+    resolveRibs exampleGlobals2 exampleProg2 :=
+  rename_invariant _ _ _ example2_topLevel
+    (by
+      have h : ∀ x ∈ stmtsDeclNames exampleProg2, ∀ y ∈ stmtsDeclNames exampleProg2,
+          exampleRho2 x = exampleRho2 y → x = y := by decide
+      exact fun x y hx hy => h x hx y hy)
+    (by
+      have h : ∀ x ∈ stmtsDeclNames exampleProg2, ¬ exampleRho2 x ∈ stmtsNames exampleProg2 := by decide
+      exact fun x hx => h x hx)
+
+/-! the hypotheses of the precedence theorems are satisfiable: `RAND` is a sprite and a register alias of
+both languages, `INF` a builtin and an ECL register alias, `I0` an ANM register alias only -/
+
+example : resolve (some "ecl") "RAND" none (ribStacksFromIter exampleGlobals2.initialRibsVec).vars = .ok .enumDummy :=
+  enum_const_shadows_builtin_and_alias _ _ _ (by decide)
+example : resolve (some "ecl") "INF" none (ribStacksFromIter exampleGlobals2.initialRibsVec).vars =
+    .ok (.builtin "INF") :=
+  builtin_shadows_alias _ _ _ (by decide) (by decide)
+example : resolve none "I0" none (ribStacksFromIter exampleGlobals2.initialRibsVec).vars = .error .unknown :=
+  alias_invisible_in_const_context _ _ (by decide) (by decide)
+example : resolve (some "ecl") "I0" none (ribStacksFromIter exampleGlobals2.initialRibsVec).vars = .error .unknown :=
+  alias_only_of_own_language _ _ _ (by decide) (by decide) (by decide)
+example : resolve (some "anm") "I0" none (ribStacksFromIter exampleGlobals2.initialRibsVec).vars =
+    .ok (.regAlias "anm" 10001) := by rw [global_var_precedence]; rfl
+/-- a local named `RAND` shadows the sprite, the builtin-free spelling and both register aliases -/
+example : resolve (some "anm") "RAND" none
+    ([⟨.locals, [("RAND", .decl 5)]⟩] ++ (ribStacksFromIter exampleGlobals2.initialRibsVec).vars) = .ok (.decl 5) :=
+  declaration_shadows_globals exampleGlobals2 [⟨.locals, [("RAND", .decl 5)]⟩]
+    (userRibs_cons _ _ (userRib_locals _) (fun _ h => by simp at h)) (some "anm") "RAND" (.loc .local (.decl 5))
+    (by decide)
+/-- in `void f(int p, int q) { p; const int p = 1; .. }` the name `p` means the const, `q` the parameter -/
+example : (bodyEnv Env.empty [(3, "p"), (4, "q")] [.expr [exV 5 "p"], .const [⟨6, "p", []⟩]]).vars "p" =
+    some (.item (.decl 6)) :=
+  body_item_shadows_param _ _ _ _ _ (by decide)
+example : (bodyEnv Env.empty [(3, "p"), (4, "q")] [.expr [exV 5 "p"], .const [⟨6, "p", []⟩]]).vars "q" =
+    some (.loc .param (.decl 4)) := by
+  rw [param_visible_unless_body_item _ _ _ _ (by decide)]; decide
+
+/-- the global ribs of the example, bottom first, as `initial_ribs` returns them -/
+example : exampleGlobals2.initialRibsVec.map (fun r => (r.1, r.2.kind)) =
+    [(.funcs, .mapfile "ecl"), (.funcs, .mapfile "anm"), (.vars, .mapfile "ecl"), (.vars, .mapfile "anm"),
+     (.vars, .builtinConsts), (.vars, .enumConsts)] := by decide
 
 end TruthModel.C10
